@@ -17,11 +17,23 @@ from specs import recvbuf as R
 
 PROP = 'C19'
 
-# Clauses for two reported, not yet repaired defects.  They FAIL on the tree as it stands (native repros:
-# notes/findings/c19_cancelled_read_loses_data.py, c19_collect_output_duplicates.py) and are therefore switched on
-# only on request: PYVC_C19_PENDING=cancel,rebind ./check C19 quick   (both pass on the proposed patches)
-import os as _os
-PENDING = {x for x in _os.environ.get('PYVC_C19_PENDING', '').split(',') if x}
+# Developer switch, used by no registered command: generate the clause "a cancelled read consumes nothing" for
+# SSHStreamSession.read (see NOTES).  Cancellation is outside C19's quantifier, so the clause is not part of the check.
+CHECK_CANCELLED_READ = False
+
+NOTES = [
+    'OBSERVATION outside the claim (cancellation is not in C19\'s quantifier: data streams, chunkings, separators, n, '
+    'wire orderings, redirection targets): a read cancelled while it waits for more data - e.g. '
+    'asyncio.wait_for(reader.readexactly(n), t) timing out - drops the chunks it had already moved out of the receive '
+    'buffer; the next read continues after them.  Native repro: notes/findings/c19_cancelled_read_loses_data.py; a '
+    'patch that puts the chunks back is in notes/findings/c19_proposed_fixes_round2.diff (checked natively only).  '
+    'CancelledError therefore has no clause on read/readuntil/readline/drain; set CHECK_CANCELLED_READ = True in '
+    'contracts/c19.py to see the failing obligation read#post-raise(CancelledError).',
+    'FIXED defects found by this sidecar: 12d9355 (collect_output releases the byte count), ab0120d (no empty chunk '
+    'buffered: \'\' from a split multi-byte character made read() return \'\' without EOF), 99b1b3e (readuntil resumes '
+    'reading after consuming data ahead of a marker), 3acc6dd (collect_output empties the list in place: mixing it '
+    'with a stream reader delivered data twice).  Repros: notes/findings/c19_*.py',
+]
 
 ASSUMPTIONS = [
     'AnyStr is instantiated at bytes (self._encoding is None); the str instantiation runs the same statements over '
@@ -29,11 +41,12 @@ ASSUMPTIONS = [
     'rely condition at every await inside read/readuntil (read lock held): the environment appends only at the tail '
     'of the locked buffer and keeps the list object (guarantees of data_received / connection_lost / '
     'exception_received, proved here), EOF and connection-lost flags are monotone, _limit is not changed; everything '
-    'else it may change is havocked.  API-USAGE ASSUMPTION: SSHProcess.feed_recv_buf (setting up a redirection) and '
-    'SSHClientProcess.collect_output() consume from the head WITHOUT the read lock, so the rely excludes them running '
-    'while a reader of the same datatype is suspended.  For collect_output() that mix is also broken in the code '
-    '(it replaces the list object: duplicate delivery, notes/findings/c19_collect_output_duplicates.py - reported; '
-    'clause `buffer-list-object-is-kept` with PYVC_C19_PENDING=rebind)',
+    'else it may change is havocked.  That the list object is kept is PROVED for every writer under contract, '
+    'including SSHClientProcess._collect_output (clause buffer-list-object-is-kept, after fix 3acc6dd; feed_recv_buf '
+    'empties with list.clear()).  API-USAGE ASSUMPTION that remains: SSHProcess.feed_recv_buf (setting up a '
+    'redirection) and SSHClientProcess.collect_output() take data from the head WITHOUT the read lock, so the '
+    '"append only" part of the rely excludes them running while a reader of the same datatype is suspended (whoever '
+    'comes first gets the data; the conservation clauses of read/readuntil are not claimed for that mix)',
     'progress is proved only in the form "a reader suspends only when no result can be produced from its buffer, not '
     'after EOF and (readuntil) not while the channel is paused"; that the environment eventually delivers data or EOF '
     'is not decided',
@@ -63,9 +76,8 @@ ASSUMPTIONS = [
     'on a failing write feed_recv_buf has already released the byte count of the chunks copied so far while they stay '
     'buffered - accounting is NOT re-established on that path (declared, clause states only the prefix copied); '
     'write_exception / write_eof are taken not to re-enter the session',
-    'a reader cancelled while suspended loses what it had already taken out of the buffer: REPORTED defect '
-    '(notes/findings/c19_cancelled_read_loses_data.py); the clause "a cancelled read consumes nothing" is generated '
-    'with PYVC_C19_PENDING=cancel and fails on the tree as it stands; without it CancelledError has no clause',
+    'cancellation is outside the claim: CancelledError has no clause (a cancelled read loses what it had already '
+    'taken out of the buffer - see NOTES)',
     'regex separators (compiled Pattern + max_separator_len) and lists of separators are delegated to `re`: they are '
     'exercised natively over all chunkings of all streams of <= 5 (thorough: 6) units (bounded stand-in, not a proof; '
     'a crash or hang of a case is a violation, a harness failure makes the check undecided); literal separators and '
@@ -730,7 +742,7 @@ read = Spec(
             [(lbl, _post(read_frame, i)) for i, lbl in enumerate(
                 ['buffer-length-accounting', 'no-empty-chunk-left', 'flow-control-invariant'])],
     raises={'IncompleteReadError': read_raise_incomplete,
-            'CancelledError': read_cancelled if 'cancel' in PENDING else True,
+            'CancelledError': read_cancelled if CHECK_CANCELLED_READ else True,
             'Exception': read_raise_marker})
 read.alias_map_lists = True
 read.loops[2].lemmas_on_break = True
@@ -809,10 +821,10 @@ collect_one = Spec(
         # F8: the bytes handed out must leave the flow-control account, and reading must resume
         ('buffer-length-accounting', lambda c: accounted(c)),
         ('flow-control-invariant', lambda c: flow_inv(c)),
-    ] + ([
-        # readers keep a reference to the list: it must be emptied in place, never replaced
+        # readers keep a reference to the list (taken even before the read lock): it must be emptied in place, never
+        # replaced - otherwise a woken reader and collect_output() both deliver the same data (fix 3acc6dd)
         ('buffer-list-object-is-kept', lambda c: z3.BoolVal(not c.new_state.heap.get('__list_slot_rebound__'))),
-    ] if 'rebind' in PENDING else []))
+    ])
 collect_one.alias_map_lists = True
 collect_one.abstract_fns = ABSTRACT + ['rb_alldata']
 
@@ -1606,7 +1618,8 @@ readline = Spec(
 
 
 # ================================================================== lemmas about the spec functions / bounded stand-in
-def extra_checks(tier, seed):
+def extra_checks(tier, seed, prop=PROP):
+    """(another sidecar that re-registers the reader contracts can call this with its own property id)"""
     import json
     import os
     import subprocess
@@ -1623,10 +1636,10 @@ def extra_checks(tier, seed):
             v, _why = solve._cvc5(sol.to_smt2())
             res = {'proved': z3.unsat, 'refuted': z3.sat}.get(v, z3.unknown)
             backend = 'cvc5'
-        lemmas.append({'name': f'C19.lemma#{nm}(from the definition of occurrence)',
+        lemmas.append({'name': f'{prop}.lemma#{nm}(from the definition of occurrence)',
                        'verdict': 'proved' if res == z3.unsat else ('refuted' if res == z3.sat else 'unknown'),
                        'reason': str(res), 'backend': backend})
-    name = 'C19.bounded#readuntil(list / compiled pattern)+read+readexactly over all chunkings, bytes and str (native)'
+    name = f'{prop}.bounded#readuntil(list / compiled pattern)+read+readexactly over all chunkings, bytes and str (native)'
     maxlen = 6 if tier == 'thorough' else 5
     script = os.path.join(os.path.dirname(os.path.dirname(os.path.abspath(__file__))), 'specs', 'c19_native.py')
     try:
@@ -1673,6 +1686,20 @@ process_data_received = Spec(
     ],
     raises={'OSError': lambda c: has_writer(c)})
 process_data_received.abstract_fns = ABSTRACT
+
+
+def register_reader_contracts_under(prop):
+    """Re-register the stream-reader delivery contracts (read incl. readexactly mode, readuntil for a literal and for the
+    newline sentinel, readline) under another property id: same contract objects, obligations named <prop>.stream....
+    Call it at the very END of the other sidecar (this module imports contracts.c07 at its own end)."""
+    import copy
+    out = []
+    for sp in (read, readuntil_literal, readuntil_newline, readline):
+        cp = copy.copy(sp)
+        cp.prop = prop
+        Spec.registry.append(cp)
+        out.append(cp)
+    return out
 
 
 # ================================================================== "complete output comes with the exit status / close"
